@@ -71,6 +71,9 @@ pub enum Backoff {
     CapThenMult,
     /// 1 ms x 1.1^k capped at 60 s: a gentle multiplier, used for one long outage (80 attempts)
     Gentle,
+    /// a stateful policy: its 1st, 3rd, 5th ... evaluation answers 30 ms, the others 5 ms. The
+    /// layer must ask once per retry and sleep what it was told
+    Stateful,
 }
 
 impl Backoff {
@@ -89,6 +92,7 @@ impl Backoff {
             Backoff::Capped => (10 * 2u64.pow(a)).min(25),
             Backoff::MultThenCap | Backoff::CapThenMult => (10 * 3u64.pow(a)).min(1000),
             Backoff::Gentle => ((1.1f64.powi(a as i32)).min(60_000.0) - 1e-9).ceil() as u64,
+            Backoff::Stateful => if k % 2 == 1 { 30 } else { 5 },
             Backoff::Fn => (a as u64 + 1) * 7,
         }
     }
@@ -153,6 +157,10 @@ pub fn build(cfg: &Cfg, shared: trv_core::inner::Shared) -> (Svc, Option<Arc<Rec
         Backoff::Seconds => b.exponential_backoff(Duration::from_millis(1250)),
         Backoff::Fractional => b.backoff(ExponentialBackoff::new(Duration::from_micros(2750)).multiplier(1.5)),
         Backoff::MultThenCap => b.backoff(ExponentialBackoff::new(Duration::from_millis(10)).multiplier(3.0).max_interval(Duration::from_secs(1))),
+        Backoff::Stateful => {
+            let evals = Arc::new(AtomicUsize::new(0));
+            b.backoff(FnInterval::new(move |_a: usize| if evals.fetch_add(1, Ordering::SeqCst) % 2 == 0 { Duration::from_millis(30) } else { Duration::from_millis(5) }))
+        }
         Backoff::Gentle => b.backoff(ExponentialBackoff::new(Duration::from_millis(1)).multiplier(1.1).max_interval(Duration::from_secs(60))),
         Backoff::CapThenMult => b.backoff(ExponentialBackoff::new(Duration::from_millis(10)).max_interval(Duration::from_secs(1)).multiplier(3.0)),
     };
@@ -241,7 +249,7 @@ pub fn grid(tier: Tier) -> Vec<Cfg> {
     let mut v = vec![];
     for max_attempts in 0..=tier.pick(3usize, 4) {
         for per_request in [false, true] {
-            for backoff in [Backoff::Zero, Backoff::Fixed, Backoff::Exponential, Backoff::Capped, Backoff::Fn, Backoff::SubMs, Backoff::Fractional, Backoff::Seconds, Backoff::MultThenCap, Backoff::CapThenMult] {
+            for backoff in [Backoff::Zero, Backoff::Fixed, Backoff::Exponential, Backoff::Capped, Backoff::Fn, Backoff::SubMs, Backoff::Fractional, Backoff::Seconds, Backoff::MultThenCap, Backoff::CapThenMult, Backoff::Stateful] {
                 for predicate in [false, true] {
                     for budget in [BudgetKind::None, BudgetKind::Token(0), BudgetKind::Token(1), BudgetKind::Token(2), BudgetKind::Aimd, BudgetKind::AimdCost3] {
                         v.push(Cfg { max_attempts, per_request, backoff, predicate, budget });
